@@ -194,6 +194,44 @@ def job_cache_isolation(P, taps):
     return recs
 
 
+WINDOW_FAMILIES = [[(2, 8), (4, 4), (8, 2), (1, 16)], [(3, 4), (2, 6), (6, 2)], [(4, 16), (8, 8), (2, 32)]]
+
+
+def window_history_problems(PFm, fams=WINDOW_FAMILIES):
+    """filterbank objects / window helpers of different (taps, branches) built one after another in one process, incl.
+    configurations sharing taps*branches: each must carry its own firwin design (no state shared between designs)"""
+    import scipy.signal
+    bad = []
+    for fam in fams:
+        for order in (fam, fam[::-1]):
+            for (taps, P) in order:
+                for wf in ('hamming', 'hann'):
+                    want = scipy.signal.firwin(taps * P, cutoff=1.0 / P, window=wf, scale=True) * (taps * P)
+                    got_h = np.array(PFm.get_pfb_window(taps, P, wf), dtype=float)
+                    got_o = np.array(PFm.PolyphaseFilterbank(num_taps=taps, num_branches=P, window_fn=wf).window, dtype=float)
+                    for nm, got in (('get_pfb_window', got_h), ('PolyphaseFilterbank.window', got_o)):
+                        if got.shape != want.shape or not np.array_equal(got, want):
+                            bad.append(f"{nm}(taps={taps}, branches={P}, {wf}) after designing {[o for o in order if o != (taps, P)][:2]}..: differs from firwin by {float(np.max(np.abs(got - want))) if got.shape == want.shape else 'shape'}")
+    return bad
+
+
+def job_window_history():
+    recs = []
+    with volt_patches():
+        bad = window_history_problems(PF)
+    r, _ = core.check([RV(int(not bad)) != 1])
+    recs.append(q('C08:window-history', r, trivial=True, detail='; '.join(bad[:2])))
+    if bad:
+        recs.append(cex('C08:window-history', bad[0], dict(fn='window_history'), name='C08:window-history'))
+    return recs
+
+
+def replay_window_history(p):
+    from setigen.voltage import polyphase_filterbank as pf
+    bad = window_history_problems(pf)
+    return bool(bad), bad[0] if bad else 'every design equals its own firwin window'
+
+
 def job_window_and_rfft(P, taps, W):
     """get_pfb_window = firwin(taps*P, cutoff=1/P, hamming)*taps*P (compiled SciPy: lifted exactly) and
     get_pfb_voltages = rfft sibling with channels 0..P/2"""
@@ -304,7 +342,7 @@ def replay_window(p):
     return (not np.array_equal(got, want)), f"window max abs diff {np.max(np.abs(got - want)) if got.shape == want.shape else 'shape'}"
 
 
-REPLAYS = {'pfb': replay_pfb, 'window': replay_window}
+REPLAYS = {'pfb': replay_pfb, 'window': replay_window, 'window_history': replay_window_history}
 
 
 def main():
@@ -330,6 +368,7 @@ def main():
                 jobs.append(('job_chunks', (P, taps, Wtot)))
             jobs.append(('job_cache_isolation', (P, taps)))
             jobs.append(('job_window_and_rfft', (P, taps, 2)))
+    jobs.append(('job_window_history', ()))
     # branch counts that are not powers of two (DFT twiddles as uninterpreted complex constants, one set per length):
     # catches any use of a transform length other than num_branches
     for P in ((3, 6, 13) if not ck.thorough else (3, 5, 6, 7, 12, 13, 26)):
